@@ -2,6 +2,7 @@ import XlModel.Bstr
 import XlModel.SaveGrid
 import XlModel.SaveCols
 import XlModel.SaveBook
+import XlModel.SaveMerge
 import XlModel.Drv.Util
 /-
 Line protocol of C01 (see harness/cmd/vh/c01.go):
@@ -18,6 +19,8 @@ Line protocol of C01 (see harness/cmd/vh/c01.go):
   rowseq n {k i v} SetRowHeight / SetRowVisible / SetRowOutlineLevel in order on a new worksheet: <sheetData> afterwards
   colseq n {k a b v} SetColWidth(a..b, v) / SetColOutlineLevel(a, v) in order on a new worksheet: the <cols> list afterwards
                   (model: SaveCols.setCols = flatCols with the setter's replacer)
+  hmerge n {c1 r1 c2 r2} the stored merged-range list of a worksheet before a real save; answer = the stored list after
+                  OpenReader (model: SaveMerge.normalize = flatMergedCells)
   hbook <book>    sheet list / visibility / active tab / merged ranges / defined names of a generated workbook
                   before a real save; answer = the same after OpenReader (model: SaveBook.cycleBook)
   setint <n>      SetCellInt on A1 of a real file: raw value before, after save+open, type, displayed value
@@ -240,6 +243,17 @@ def applyRowSeq : Nat → List String → List Grid.Row → Option (List Grid.Ro
     | none => none
   | _, _, _ => none
 
+def parseRects : Nat → List String → Option (List SaveMerge.Rect)
+  | 0, [] => some []
+  | n + 1, a :: b :: c :: d :: w =>
+    match a.toNat?, b.toNat?, c.toNat?, d.toNat?, parseRects n w with
+    | some a, some b, some c, some d, some l => some (⟨a, b, c, d⟩ :: l)
+    | _, _, _, _, _ => none
+  | _, _ => none
+
+def showRects (l : List SaveMerge.Rect) : String :=
+  s!"{l.length}" ++ String.join (l.map fun m => s!" {m.c1} {m.r1} {m.c2} {m.r2}")
+
 def step (w : List String) : String :=
   match w with
   | ["bm", h] => match decodeU h with
@@ -276,6 +290,11 @@ def step (w : List String) : String :=
   | "colseq" :: n :: g => match n.toNat? with
     | some n => match applyColSeq n g none with
       | some st => "ok " ++ showCols (st.getD [])
+      | none => "bad-op"
+    | none => "bad-op"
+  | "hmerge" :: n :: g => match n.toNat? with
+    | some n => match parseRects n g with
+      | some l => "ok " ++ showRects (SaveMerge.normalize l)
       | none => "bad-op"
     | none => "bad-op"
   | "hbook" :: g => stepBook g
